@@ -183,7 +183,7 @@ func ZZ_C08_IncludedTwice() {
 	leafInc.Vars.Set("L", Var{Value: leafVar})
 	zz.Assert(mid.Merge(leaf, leafInc, NewVars()) == nil, "merge-must-not-fail")
 	root := NewTasks()
-	inc1 := &Include{Namespace: "m1", AdvancedImport: true, Vars: NewVars()}
+	inc1 := &Include{Namespace: "m1", AdvancedImport: true, Vars: NewVars(), Aliases: []string{"l"}}
 	inc1.Vars.Set("WHO", Var{Value: one})
 	inc2 := &Include{Namespace: "m2", AdvancedImport: true, Vars: NewVars()}
 	inc2.Vars.Set("WHO", Var{Value: two})
@@ -207,6 +207,18 @@ func ZZ_C08_IncludedTwice() {
 			zz.Assert(t.Deps[0].Task == c.ns+":leaf:dep" && t.Cmds[0].Task == c.ns+":leaf:other", "included-twice/references-carry-own-namespace")
 			zz.Assert(t.Cmds[1].Task == "roottask", "included-twice/root-references-unprefixed")
 			zz.Assert(len(t.Aliases) >= 1 && t.Aliases[0] == c.ns+":leaf:s", "included-twice/aliases-carry-own-namespace")
+			if c.ns == "m1" { // the include's namespace alias names the same task by its full inner path
+				has := func(a string) bool {
+					for _, x := range t.Aliases {
+						if x == a {
+							return true
+						}
+					}
+					return false
+				}
+				zz.Assert(has("l:leaf:show") && has("l:leaf:s"), "included-twice/namespace-alias-keeps-the-inner-path")
+				zz.Assert(!has("l:show"), "included-twice/namespace-alias-does-not-shadow-the-parent-file")
+			}
 			if leafInc.AdvancedImport {
 				l, ok := t.IncludeVars.Get("L")
 				ls, _ := l.Value.(string)
